@@ -56,16 +56,7 @@ type c13Codec struct {
 	dec    func(b []byte) map[string]c13V
 	fix    func(b []byte, l *cnative.Layout) // make a probe buffer acceptable to accessors
 	extra  func(v map[string]c13V) map[string]string
-	// number of accessor fields switched off because of a listed known finding
-	excluded int
 }
-
-// c13KnownCCQV6 is the signature of the finding "cleanupv1.ValueV6.Timestamp() and
-// RevTimestamp() read offsets KeySize / KeySize+8 (16 / 24, the IPv4 key size) instead of
-// KeyV6Size / KeyV6Size+8 (40 / 48) where struct cali_ccq_value keeps last_seen and
-// rev_last_seen in the IPv6 build".  When the driver lists it as known, exactly those two
-// accessor comparisons are skipped (and counted); everything else is still checked.
-const c13KnownCCQV6 = "ccq-valuev6-timestamp-accessors-use-v4-keysize"
 
 func (c *c13Codec) zero() map[string]c13V {
 	v := map[string]c13V{}
@@ -325,12 +316,9 @@ func c13Codecs() []*c13Codec {
 				return map[string]string{"flags_all": cnative.U(uint64(c13FlagsOf(v))), "type": cnative.U(uint64(ct.TypeNATReverse))}
 			}})
 
-		// cleanup queue value.  Known finding (see c13KnownCCQV6): the IPv6 accessors
-		// ValueV6.Timestamp/RevTimestamp index with the IPv4 KeySize.
-		ccqNoAcc := v6 && ev.Known(c13KnownCCQV6)
-		out = append(out, &c13Codec{id: "ccq_value", name: "ccq_value", ipver: ipver, excluded: map[bool]int{true: 2}[ccqNoAcc],
-			fields: []c13F{{name: "rev_key", kind: 'b', w: keyLen}, {name: "last_seen", kind: 'u', w: 8, noAcc: ccqNoAcc},
-				{name: "rev_last_seen", kind: 'u', w: 8, noAcc: ccqNoAcc}},
+		// cleanup queue value
+		out = append(out, &c13Codec{id: "ccq_value", name: "ccq_value", ipver: ipver,
+			fields: []c13F{{name: "rev_key", kind: 'b', w: keyLen}, {name: "last_seen", kind: 'u', w: 8}, {name: "rev_last_seen", kind: 'u', w: 8}},
 			enc: func(v map[string]c13V) []byte {
 				if v6 {
 					return cleanupv1.NewValueV6(v["rev_key"].b, v["last_seen"].u, v["rev_last_seen"].u).AsBytes()
@@ -605,9 +593,6 @@ func c13BitIndex(a, b []byte) (idx int, n int) {
 func c13ProbeCodec(t *testing.T, tb *cnative.Table, rec *ev.Recorder, c *c13Codec) {
 	l := tb.L[c.ipver]
 	csize := tb.StructSize(c.id, c.ipver)
-	for i := 0; i < c.excluded; i++ {
-		rec.Excluded(c13KnownCCQV6)
-	}
 	base := c.enc(c.zero())
 	if len(base) != csize {
 		t.Fatalf("C13 size disagreement (IPv%d): Go %s is %d bytes, sizeof(C %s) is %d", c.ipver, c.name, len(base), c.id, csize)
@@ -866,9 +851,6 @@ func TestVerifC13MapsRoundTrip(t *testing.T) {
 			}
 			v["saddr"] = c13V{b: a}
 		}
-		for i := 0; i < c.excluded; i++ {
-			rec.Excluded(c13KnownCCQV6)
-		}
 		gb := c.enc(v)
 		got, err := l.Decode(c.id, gb)
 		if err != nil {
@@ -973,10 +955,11 @@ func c13Show(c *c13Codec, v map[string]c13V) map[string]string {
 	return o
 }
 
-// TestVerifC13_ConfirmCCQV6Timestamp is the confirm test of known finding c13KnownCCQV6 (not
-// part of the normal run: the unit's run pattern needs a letter after "C13").  It fails
-// exactly when the finding reproduces.
-func TestVerifC13_ConfirmCCQV6Timestamp(t *testing.T) {
+// TestVerifC13RegressCCQV6Timestamp is the plain regression input of a defect this check found
+// and that was fixed in the tree (4a9af25): cleanupv1.ValueV6.Timestamp/RevTimestamp read
+// offsets KeySize / KeySize+8 (the IPv4 key size) instead of the IPv6 offsets of
+// struct cali_ccq_value.last_seen / rev_last_seen.
+func TestVerifC13RegressCCQV6Timestamp(t *testing.T) {
 	ev.Quiet()
 	env := c13Start(t)
 	st := env.l[6].C.Structs["ccq_value"]
@@ -988,11 +971,11 @@ func TestVerifC13_ConfirmCCQV6Timestamp(t *testing.T) {
 	v := cleanupv1.NewValueV6(key, 0x1111111111111111, 0x2222222222222222)
 	b := v.AsBytes()
 	if binary.LittleEndian.Uint64(b[ls.Off:]) != 0x1111111111111111 || binary.LittleEndian.Uint64(b[rls.Off:]) != 0x2222222222222222 {
-		t.Fatalf("HARNESS-GAP: constructor no longer writes the C offsets; finding signature does not apply")
+		t.Fatalf("C13 layout disagreement: cleanupv1.NewValueV6 does not write ts/rev_ts at the C offsets %d/%d: % x", ls.Off, rls.Off, b)
 	}
 	if v.Timestamp() != 0x1111111111111111 || v.RevTimestamp() != 0x2222222222222222 {
-		t.Fatalf("C13 finding reproduces: cleanupv1.NewValueV6(key, ts=0x1111111111111111, rev_ts=0x2222222222222222): Timestamp()=%#x RevTimestamp()=%#x; "+
-			"struct cali_ccq_value (IPv6) keeps last_seen at offset %d and rev_last_seen at %d, the accessors read offsets %d and %d",
-			v.Timestamp(), v.RevTimestamp(), ls.Off, rls.Off, cleanupv1.KeySize, cleanupv1.KeySize+8)
+		t.Fatalf("C13 layout disagreement (regression of 4a9af25): cleanupv1.NewValueV6(key, ts=0x1111111111111111, rev_ts=0x2222222222222222): Timestamp()=%#x RevTimestamp()=%#x; "+
+			"struct cali_ccq_value (IPv6) keeps last_seen at offset %d and rev_last_seen at %d, the accessors do not read them back",
+			v.Timestamp(), v.RevTimestamp(), ls.Off, rls.Off)
 	}
 }
